@@ -139,6 +139,7 @@ class C11(PropBase):
         "exists in two modules, which must denote the issuing module's class. Non-trivial: the other module resolved the same bare name "
         "earlier in the run, the call came from a nested depth or another module than the first use, or a fault fired before; "
         "distinct = distinct (operation digest, pre-state signature) pairs."
+        " Under the swept exhaustion fault the wrapped form is first used from every stack depth at which the call cannot complete. Bare names include one that is also a builtin's (Warning), bound to different classes in the two modules."
     )
     ASSUMPTIONS = ["string references are written the way Python resolves annotations: bare inside the defining module, qualified from another"]
 
